@@ -80,15 +80,30 @@ def main(argv=None):
         _init(modname)
         results = (_work((pid, a.tier, seed, s)) for s in specs)
     else:
-        pool = mp.get_context("fork").Pool(min(a.jobs, len(specs)), initializer=_init, initargs=(modname,))
-        results = pool.imap(_work, [(pid, a.tier, seed, s) for s in specs], chunksize=1)
+        # ProcessPoolExecutor (not multiprocessing.Pool): a worker that dies (e.g. killed for memory while running a
+        # broken library build) raises BrokenProcessPool instead of hanging the run for ever
+        import concurrent.futures as cf
+        pool = cf.ProcessPoolExecutor(min(a.jobs, len(specs)), mp_context=mp.get_context("fork"),
+                                      initializer=_init, initargs=(modname,))
+        futs = [pool.submit(_work, (pid, a.tier, seed, s)) for s in specs]
+
+        def _gather():
+            for sp, f in zip(specs, futs):
+                try:
+                    yield f.result()
+                except Exception as e:   # BrokenProcessPool and friends
+                    c = core.Ctx(pid, a.tier, seed)
+                    d = c.dump()
+                    d.update(_err=f"worker process failed: {type(e).__name__}: {e}", _spec=repr(sp)[:200], _wall=0.0)
+                    yield d
+        results = _gather()
     for d in results:
         if d["_err"]:
             errs.append((d["_spec"], d["_err"]))
         walls.append(d["_wall"])
         ctx.merge(d)
     if a.jobs > 1 and len(specs) > 1 and a.shard is None:
-        pool.close(); pool.join()
+        pool.shutdown(wait=False, cancel_futures=True)
 
     if hasattr(mod, "finalize"):
         try:
